@@ -90,6 +90,8 @@ pub fn case(ctx: &Ctx, env: &RealEnv, dir: &std::path::Path, case: u64, seed: u6
             extra_reads: vec![],
             discovers: false,
         };
+        // `deps = msvc` switches on a filter for include notes; everything else a command prints passes intact
+        s.msvc = rng.chance(1, 3);
         if rng.chance(1, 4) {
             // a second output below the first one's directory, and a third elsewhere
             let base = std::path::Path::new(&s.outs[0]).parent().map(|p| p.to_string_lossy().into_owned()).unwrap_or_default();
